@@ -114,7 +114,10 @@ def step (st : St) (line : String) : St × String :=
       let m := decodeIndex aLo b mx
       let m2 := decodeIndex aHi b mx
       let ms := if m == m2 then outStr (fun (p : List Int × Bytes) => s!"{idxStr p.1} {toHex p.2}") m else "*"
-      let v := match parseOut? pIdxRest it with
+      -- `hang` (deadline exceeded while allocating) is judged like a panic: the count is what the Spec reads from the input
+      let big := match Spec.C36.parseVarint b with | some (l, _) => decide (l > (aLo : Int)) | none => false
+      let io := if it == ["hang"] && big then some Out.panic else parseOut? pIdxRest it
+      let v := match io with
         | some o =>
           if Spec.C36.decodeIndexAllowed b mx o then "1"
           else if o == Out.panic then
